@@ -670,12 +670,13 @@ def scan_pairs(fam, bases, pf, nest=()):
     return c
 
 
-def keep_pair(seed, idx, depth, frac):
-    """thorough cap: one-step pairs always, compositions with probability frac, decided by (VERIF_SEED, line number)"""
-    if depth <= 1 or frac >= 1.0:
+def keep_pair(seed, p, frac):
+    """thorough cap: one-step pairs always, compositions with probability frac, decided by (VERIF_SEED, member, trail) -
+    not by the line number, which depends on the scheduling of TLC's workers"""
+    if len(p["trail"]) <= 1 or frac >= 1.0:
         return True
     import zlib
-    return zlib.crc32(("%d:%d" % (seed, idx)).encode()) / 4294967296.0 < frac
+    return zlib.crc32(("%d:%d:%s" % (seed, p["b"], json.dumps(p["trail"]))).encode()) / 4294967296.0 < frac
 
 
 def run(tier, seed):
@@ -727,7 +728,7 @@ def run_(tier, seed):
 
     batch = Batch()
     for idx, p in iter_pairs(pf):
-        if not keep_pair(seed, idx, len(p["trail"]), frac):
+        if not keep_pair(seed, p, frac):
             continue
         name = fam[p["b"] - 1][0]
         batch.add(bases[p["b"]]["cfg"], p["cfg"], {"src": "tlc", "base": name, "trail": p["trail"], "norm": p["norm"],
@@ -811,7 +812,7 @@ def run_(tier, seed):
         "pairs_enumerated_by_tlc": n_tlc_pairs,
         "pairs_printed_by_tlc": cnt["printed"], "pairs_printed_one_step": cnt["depth1"], "pairs_printed_compositions": cnt["deeper"],
         "pair_cap": PAIR_CAP, "compositions_kept_fraction": round(frac, 4),
-        "binding": "all one-step pairs; compositions all when printed <= pair_cap, else sampled by (VERIF_SEED, line number); "
+        "binding": "all one-step pairs; compositions all when printed <= pair_cap, else sampled by a hash of (VERIF_SEED, member, trail); "
                    "shards of %d pairs, <= %d worker processes, <= %d runs per process" % (SHARD_PAIRS, MAX_PROCS, RUNS_PER_PROC),
         "pairs_random_compositions": st["pairs"] - n_tlc_pairs,
         "tlc_trails_replayed_with_python_rules": replayed,
